@@ -560,13 +560,17 @@ class Executor(Engine):
                     if last:
                         results.append((s1, a))
                         continue
-                    t = self.truthy(a, s1)
+                    t = z3.simplify(self.truthy(a, s1))
                     if is_and:
-                        results.append((s1.assume(z3.Not(t)), a))
-                        nxt.append(self.narrow(v, s1.assume(t), True))
+                        if not z3.is_true(t):
+                            results.append((s1.assume(z3.Not(t)), a))
+                        if not z3.is_false(t):
+                            nxt.append(self.narrow(v, s1.assume(t), True))
                     else:
-                        results.append((s1.assume(t), a))
-                        nxt.append(self.narrow(v, s1.assume(z3.Not(t)), False))
+                        if not z3.is_false(t):
+                            results.append((s1.assume(t), a))
+                        if not z3.is_true(t):
+                            nxt.append(self.narrow(v, s1.assume(z3.Not(t)), False))
             frontier = nxt
         return results
 
